@@ -62,6 +62,17 @@ CHECKS = {
               "sum_weights of a measurement by differential testing with redshifts drawn from the edge set."),
         ref="5.C10", technique="Lean 4 theorems over translator-generated digitize/histogram arguments + differential correspondence",
         note="np.digitize / np.histogram semantics modelled (searchsorted rule, last bin closed); float == on identical binary64 values"),
+    "C11": dict(
+        text=("Theorems: the sparse HDF5 layout of pair counts (pairs with a non-zero count in some bin + binned "
+              "counts; zeros + assignment on read) round-trips every array incl. negative, sparse and all-zero counts; "
+              "the generated group-name / member pairing reads back exactly the members written for all 8 subsets (false "
+              "before the repair of the to_hdf pairing); a configuration is recreated from its parameter dictionary and "
+              "regenerated edges are identical because the outer edges are the stored limits (shared with C15). Text "
+              "files (fixed-width format) and metadata YAML are covered by correspondence only: bound 10^-(8-d), NaN/inf "
+              "and the closed side exact, 1..6 bins. Tie: AST pins of all (de)serialisers; the stored HDF5 datasets are "
+              "compared with the model's sparse entries."),
+        ref="5.C11", technique="Lean 4 theorems over a hand-written sparse-layout / member-mapping model + generated names + correspondence",
+        note="h5py, PyYAML, np.loadtxt and float repr round trips trusted; text precision checked empirically, not proved"),
     "C12": dict(
         text=("Theorems: stored num_records / sum_weights are those of the records; every record lies within the "
               "stored radius (maximum of the record distances, attained) of the stored centre; a catalog created from "
@@ -83,6 +94,18 @@ CHECKS = {
               "poles / across RA=0, row shuffle, centre permutation, weight factors 2^k bitwise and 1e-9..1e6, split)."),
         ref="5.C13", technique="Lean 4 theorems on the spec + metamorphic differential runs of the real pipeline",
         note="relies on C01/C03/C04 for spec = implementation; rotations applied in float64 with a 1e-8 guard band"),
+    "C15": dict(
+        text=("Theorems: linear edges (np.linspace model) have n+1 strictly increasing entries with first = zmin and "
+              "last = zmax; edges linear in any strictly increasing quantity g with inverse h (comoving distance, "
+              "log(1+z)) with pinned end points likewise (mapped_edges); the generated per-unit _compute_angle formulas "
+              "equal r * unit factor / D(z) for the unit's distance measure (all 8 units); rmin >= rmax in ANY scale and "
+              "non-increasing / too few edges are rejected (generated validation predicates); missing limits are rejected; "
+              "MAIN modify_eq_create: the modify decision logic equals create on the merged parameters for every "
+              "configuration and every modification; a configuration is recreated from its own parameters. Tie: "
+              "generated kernels + AST pins of create/modify/to_dict/from_dict/__eq__ + stratified differential runs "
+              "(bitwise edges, 4-ulp angles vs astropy, modify vs create, malformed stream, original untouched)."),
+        ref="5.C15", technique="Lean 4 theorems over generated angle/validation kernels + hand-written create/modify decision model + correspondence",
+        note="astropy distances and z_at_value trusted (monotone, inverse to 1e-9); reading of 'merged parameters' documented in DESIGN 5.x"),
     "C16": dict(
         text=("Theorems: the chunk sizes of a random-reader pass (generated size expression) sum to exactly n, each in "
               "1..c, all but the last full, for all n >= 0 and c >= 1; a pass depends only on seed and requested sizes "
